@@ -10,6 +10,7 @@ import (
 	"net/http"
 	"net/http/httptest"
 	"strings"
+	"time"
 
 	"github.com/volatiletech/authboss/v3"
 	"verif/sim"
@@ -189,6 +190,12 @@ func c11run(prog []c11op, sessStart, cookStart c11state, failS, failC, nilEmpty 
 		orig := w // the writer the middleware handed over (wrappers below may hide its optional interfaces)
 		for _, o := range prog {
 			switch o.Op {
+			case "rcdeadline":
+				// http.ResponseController walks the Unwrap chain for what a writer does not implement itself:
+				// setting a write deadline (refused by this base writer) releases no byte and delivers nothing
+				l.add("op", o.String(), nil)
+				http.NewResponseController(orig).SetWriteDeadline(time.Now().Add(time.Minute))
+				http.NewResponseController(w).EnableFullDuplex()
 			case "hijackfail":
 				// an upgrade attempt on a connection that cannot be taken over (HTTP/2, a recorder): the
 				// handler gets an error back and carries on with an ordinary response. Not a write.
@@ -415,6 +422,14 @@ func c11Unit(c *RunCtx, unit int) {
 			prog = append([]c11op{{Op: "lazy"}}, prog...) // stores that keep the slice they are handed
 			c.Stats.Count("programs-with-write-behind-stores")
 		}
+		if (i+unit)%5 == 3 {
+			at := (i / 5) % (len(prog) + 1)
+			if len(prog) > 0 && (prog[0].Op == "nested" || prog[0].Op == "lazy") && at == 0 {
+				at = 1
+			}
+			prog = append(prog[:at:at], append([]c11op{{Op: "rcdeadline"}}, prog[at:]...)...)
+			c.Stats.Count("programs-using-a-response-controller")
+		}
 		if (i+unit)%5 == 2 {
 			// an attempted connection upgrade that fails, somewhere in the program (position not drawn from r)
 			at := (i / 5) % (len(prog) + 1)
@@ -540,11 +555,11 @@ func min(a, b int) int {
 func init() {
 	register(&Check{
 		ID: "C11", Level: "exploration",
-		Rule:  "random handler programs (0-25 operations over putS/delS/delAllS/putC/delC/getS/getC/WriteHeader (final codes, 100/103 informational, 101)/Write/io.Copy (the base writer implements io.ReaderFrom like net/http's) and nesting the writer in wrappers exposing UnderlyingResponseWriter() or Unwrap(), depth <= 4; one program in five runs directly inside a second Authboss instance's LoadClientStateMiddleware, whose stores must receive nothing; one in five uses write-behind stores that keep the event slice they are handed (what they hold at the end of the request is what was delivered); in 1/6 of the programs one of the stores fails its first WriteState and the handler recovers and carries on; every third program (never a nested one) runs with stores that answer a nil state, not an empty one, for a client they hold nothing for, and in half of those the client arrives without a session or without cookies) executed by a handler behind the real LoadClientStateMiddleware with two recording stores and a recording base writer sharing one sequence counter. Offline checker over the log: each store receives <= 1 delivery, exactly the operations made for it before the first write, same order/keys/values, never the other store's; every delivery precedes the first header or body byte released to the base writer; operations after the first write are never delivered; every read returns the request-start value whatever was put earlier. Every fourth program writes back, in every other put of a key the request started with, the request-start value; every fifth contains a failed connection upgrade (Hijack answered with an error), after which the program carries on. distinct_nontrivial = distinct program shapes (#ops, #ops before first write, #writes, wrapper depth, kind of first write).",
+		Rule:  "random handler programs (0-25 operations over putS/delS/delAllS/putC/delC/getS/getC/WriteHeader (final codes, 100/103 informational, 101)/Write/io.Copy (the base writer implements io.ReaderFrom like net/http's) and nesting the writer in wrappers exposing UnderlyingResponseWriter() or Unwrap(), depth <= 4; one program in five runs directly inside a second Authboss instance's LoadClientStateMiddleware, whose stores must receive nothing; one in five uses write-behind stores that keep the event slice they are handed (what they hold at the end of the request is what was delivered); in 1/6 of the programs one of the stores fails its first WriteState and the handler recovers and carries on; every third program (never a nested one) runs with stores that answer a nil state, not an empty one, for a client they hold nothing for, and in half of those the client arrives without a session or without cookies) executed by a handler behind the real LoadClientStateMiddleware with two recording stores and a recording base writer sharing one sequence counter. Offline checker over the log: each store receives <= 1 delivery, exactly the operations made for it before the first write, same order/keys/values, never the other store's; every delivery precedes the first header or body byte released to the base writer; operations after the first write are never delivered; every read returns the request-start value whatever was put earlier. Every fourth program writes back, in every other put of a key the request started with, the request-start value; every fifth contains a failed connection upgrade (Hijack answered with an error), after which the program carries on. Every fifth program calls http.ResponseController (SetWriteDeadline / EnableFullDuplex) somewhere: it walks the Unwrap chain, releases no byte and delivers nothing. distinct_nontrivial = distinct program shapes (#ops, #ops before first write, #writes, wrapper depth, kind of first write).",
 		Units: func(t string) int { return tierN(t, 64, 256) },
 		Run:   c11Unit,
 		Floors: func(t string) map[string]int {
-			return map[string]int{"programs-with-several-writes": 1000, "programs-flushing-through-wrappers": 500, "programs-with-ops-after-first-write": 1000, "programs-with-a-failing-store": 1000, "programs-with-a-failed-hijack": 1000, "programs-with-nil-answering-stores": 1000}
+			return map[string]int{"programs-with-several-writes": 1000, "programs-flushing-through-wrappers": 500, "programs-with-ops-after-first-write": 1000, "programs-with-a-failing-store": 1000, "programs-with-a-failed-hijack": 1000, "programs-using-a-response-controller": 1000, "programs-with-nil-answering-stores": 1000}
 		},
 		Assumptions: []string{"Flush, successful hijacks and buffering wrappers are outside the alphabet the property quantifies over (a FAILED hijack attempt, after which the handler answers normally, is in it: every fifth program)", "a handler that never writes releases nothing (the library flushes on the first WriteHeader/Write only)"},
 	})
